@@ -32,6 +32,7 @@ import io
 import os
 import pickle
 import random
+import re
 import shutil
 import threading
 import types
@@ -106,6 +107,9 @@ class CrashFile:
     def flush(self):
         pass
 
+    def __getattr__(self, name):          # truncate / tell / seek / fileno …: the real file's
+        return getattr(self.raw, name)
+
     def write(self, data):
         if self.at is not None and self.n >= self.at:
             raise SimCrash("died in write call %d" % self.n)
@@ -157,9 +161,11 @@ def check_convert_table(ctx, drv):
         for label, mk in EXC_TABLE:
             e = mk()
 
-            def fake_load(f, _e=e):
+            def fake_load(*a, _e=e, **k):
                 raise _e
-            api.pickle = types.SimpleNamespace(load=fake_load, dump=real_pickle.dump, UnpicklingError=real_pickle.UnpicklingError)
+            ns = types.SimpleNamespace(**{k: getattr(real_pickle, k) for k in dir(real_pickle) if not k.startswith("__")})
+            ns.load = ns.loads = fake_load
+            api.pickle = ns
             w.spy_log.clear()
             ok, r, msg = G.outcome(api.transfer_model, w.dirs[0], "M", {"cache": True})
             api.pickle = real_pickle
@@ -220,6 +226,10 @@ class CrashBench:
             ctx.violation("transfer_model raised %s on a folder without a cache file" % m,
                           {"stream": "interrupt", "text": text, "opts": self.opts, "at": None, "calls": []},
                           expected="compile and save", observed="%s: %s" % (m, msg), kind="crash")
+            self.failed_baseline = True
+            return
+        if not os.path.exists(self.w.cache_path()):
+            ctx.tie_broken("save_model:no-cache-file-written", sorted(os.listdir(self.w.dirs[0])))
             self.failed_baseline = True
             return
         with open(self.w.cache_path(), "rb") as f:
@@ -334,14 +344,49 @@ class CrashBench:
                 pth = os.path.join(d, fn)
                 shutil.rmtree(pth, ignore_errors=True) if os.path.isdir(pth) else os.remove(pth)
 
-    def interruption(self, at, drv, at_bytes=None):
+    def old_cache(self):
+        """A complete cache of an *older* version of the source (one number changed: same layout, other content),
+        compiled once per bench: (old text, bytes) or None."""
+        if hasattr(self, "_old"):
+            return self._old
+        self._old = None
+        head, sep, eqs = self.text.partition("equation\n")
+        m = re.search(r"(?<![\w.\[])(\d+(?:\.\d+)?)(?![\w.\]])", eqs)
+        if m:
+            old_text = head + sep + eqs[:m.start()] + ("7" if m.group(1) != "7" else "9") + eqs[m.end():]
+            self.clean_folder()
+            G.write_file(os.path.join(self.w.dirs[0], "M.mo"), old_text, self.w.ns(self.w.tick()))
+            ok, m1, msg = G.outcome(self.api.transfer_model, self.w.dirs[0], "M", self.w.real_opts(self.opts, []))
+            if ok:
+                with open(self.w.cache_path(), "rb") as f:
+                    self._old = (old_text, f.read())
+            self.src_tick = self.w.write(0, "M.mo", self.text)
+            self.w.model_ops.clear()
+        return self._old
+
+    def interruption(self, at, drv, at_bytes=None, start_old=False):
         """save_model really dies: `at` = None and `at_bytes` = None: when it opens the file; `at` = j: at its
         j-th write call (0 = the file was just created); `at_bytes` = k: in the middle of a write, k bytes out.
         Whatever files the code created stay; then transfer_model is called again."""
         ctx, w, api = self.ctx, self.w, self.api
         case = {"stream": "interrupt", "text": self.text, "opts": self.opts, "at": at, "at_bytes": at_bytes}
+        old = self.old_cache() if start_old else None
         self.clean_folder()
-        w.model_ops[:] = self.model_prefix(False)
+        case["start_old"] = bool(old)
+        if old:
+            # an older complete cache is there (compiled from the older source), then the source was edited:
+            # the interrupted call is a REWRITE of an existing file
+            old_text, old_bytes = old
+            ta, tb = w.tick(), w.tick()
+            with open(w.cache_path(), "wb") as f:
+                f.write(old_bytes)
+            G.set_mtime(w.cache_path(), w.ns(tb))
+            w.model_ops[:] = [["write", 0, "M.mo", ta, w.content_id(old_text)],
+                              ["transfer", w.model_opts(self.opts, []), tb, len(old_bytes)]]
+            self.src_tick = w.write(0, "M.mo", self.text)
+            ctx.count("interrupt:rewrite-of-older-cache")
+        else:
+            w.model_ops[:] = self.model_prefix(False)
         start = len(w.model_ops)
         before_open = at is None and at_bytes is None
 
@@ -470,6 +515,10 @@ class SchedFile:
     def flush(self):
         pass
 
+    def truncate(self, size=None):
+        self.truncate_after = True      # applied once the buffered bytes have reached the file
+        return 0
+
     def close(self):
         self.__exit__(None, None, None)
 
@@ -487,6 +536,8 @@ class SchedFile:
             pos += n
             self.sched.did(["write", self.i, n])
         self.sched.yield_point(self.i, "close")
+        if getattr(self, "truncate_after", False):
+            self.raw.truncate()
         self.raw.close()
         self.sched.did(["close", self.i])
         return False
@@ -827,6 +878,11 @@ def run(ctx):
             for k in ([1] + ks if b is benches[0] or not quick else ks[:1]):
                 if not b.interruption(None, drv, at_bytes=k):
                     return
+            # the same over an older complete cache of other content (an interrupted rewrite)
+            olds = [(0, None), (None, 1), (None, 40)] + [(None, k) for k in ks]
+            for at, k in (olds if b is benches[0] or not quick else olds[:2]):
+                if not b.interruption(at, drv, at_bytes=k, start_old=True):
+                    return
         # ---- interleavings ----------------------------------------------------------------------------------
         for j, (b, seed, f0) in enumerate(scheds):
             if ctx.time_left() < (20 if quick else 200):
@@ -904,7 +960,7 @@ def replay(ctx, payload):
         if c["stream"] == "truncate":
             b.truncation(c["offset"], drv, check_hit=True, edit_after=c.get("edit_after", False))
         elif c["stream"] == "interrupt":
-            b.interruption(c["at"], drv, at_bytes=c.get("at_bytes"))
+            b.interruption(c["at"], drv, at_bytes=c.get("at_bytes"), start_old=c.get("start_old", False))
         elif c["stream"] == "interleave":
             f0 = None if c["f0"] is None else b.B if c["f0"] == "complete" else b"\x80\x05garbage-not-a-pickle" \
                 if c["f0"] == "garbage" else b.B[:int(c["f0"].split(":")[1])]
